@@ -145,6 +145,14 @@ class SdkDriver:
             t = self.cvalue(target)
             o = self.cvalue(other)
             t.add(o, mod=mod)     # a register future is passed as it is (add() accepts any BaseFuture)
+        elif k == "aborted_loop":
+            class _Abort(Exception):
+                pass
+            try:
+                with conn.loop(s[1]):
+                    raise _Abort()
+            except _Abort:
+                pass
         elif k == "flush":
             conn.flush(block=bool(self.flush_block()))
         else:
